@@ -32,9 +32,12 @@ CLAIMED["C11"] = dict(
          "(request_decode_segmentation) with all fields faithful (request_fields_faithful); deserialisation, IP-header skipping and "
          "responded_echo_request never panic; a quoting ICMPv4 error designates the request (v4_error_designates); 7.4 format; "
          "waiter-table invariants (only the requester is told, swept waiters are forgotten, table bounded by sends). Tied to the code by "
-         "~100k differential cases per run plus an independent RFC 1071 check of what the real encoder emits.",
+         "~100k differential cases per run, an independent RFC 1071 check of what the real encoder emits, and 60 (400) histories "
+         "through the real IcmpForwarder on raw loopback sockets (kernel echo replies, injected replies and errors, timeouts, full "
+         "queues) compared with the waiter-table model.",
     note="Trusted: Lean kernel, harness/door; the kernel computes ICMPv6 checksums; random echo data (ring) is an input. The waiter-table "
-         "model (icmp_forwarder.rs) is tied to the code by reading only - the raw-socket history suite is not built; delivery theorems "
+         "model is tied to icmp_forwarder.rs by the raw-socket history suite (IPv4, loopback; skipped with a note where raw sockets "
+         "are not permitted); delivery theorems "
          "are per matching waiter (clients sharing identifier+sequence with prefix-equal data share a key: recorded limitation).",
 )
 CLAIMED["C06"] = dict(
